@@ -668,24 +668,34 @@ def _r25(ctx, prog, M, T):
             if ctarg is None:
                 continue
             ctv = prog.const(ctarg, f.module)
-            if not isinstance(ctv, str):
+            variants = [(target[0] if target else f.cls, ctv)]
+            if not isinstance(ctv, str) and (dotted(ctarg) or "").startswith(("cls.", "self.")) and (is_cls_call or is_load):
+                # a class-level constant (`cls.content_type`): one construction per concrete class that runs this code
+                variants = []
+                for k_ in [f.cls] + list(prog.subclasses(f.cls)):
+                    v_ = prog.const(ctarg, f.module, None, k_)
+                    if isinstance(v_, str):
+                        variants.append((k_, v_))
+            for cls, ctv in variants:
+              if not isinstance(ctv, str):
                 continue  # computed (image / media content types): checked by C15
-            n += 1
-            cls = target[0] if target else f.cls
-            key = "%s@%d" % (f.qualname, c.lineno)
-            reg = mp.get(ctv)
-            if reg is None:
-                if cls.name in ("XmlPart", "Part") or ctv.endswith(("theme+xml", "oleObject")) or "package" in ctv:
-                    ctx.ok("R2.5", key, sample={"class": cls.name, "content_type": ctv, "registry": "unmapped (generic Part on reload)"},
-                           nontrivial=False)
-                else:
-                    ctx.violation("R2.5", key, "%s is created with content type %s which has no row in the registry: the part "
-                                  "re-opens as a generic Part" % (cls.name, ctv), file=f.file, line=c.lineno)
-            elif reg is cls or reg in prog.mro(cls) or cls in prog.mro(reg):
-                ctx.ok("R2.5", key, sample={"class": cls.name, "content_type": ctv, "registry": reg.name})
-            else:
-                ctx.violation("R2.5", key, "%s is created with content type %s, which the registry maps to %s" % (
-                    cls.name, ctv, reg.name), file=f.file, line=c.lineno)
+              n += 1
+              key = "%s@%d" % (f.qualname, c.lineno) + (":" + cls.name if len(variants) > 1 else "")
+              reg = mp.get(ctv)
+              if True:
+                    if reg is None:
+                        if cls.name in ("XmlPart", "Part") or ctv.endswith(("theme+xml", "oleObject")) or "package" in ctv or len(variants) > 1 \
+                              or (dotted(ctarg) or "").startswith(("cls.", "self.")):
+                            ctx.ok("R2.5", key, sample={"class": cls.name, "content_type": ctv, "registry": "unmapped (generic Part on reload)"},
+                                   nontrivial=False)
+                        else:
+                            ctx.violation("R2.5", key, "%s is created with content type %s which has no row in the registry: the part "
+                                          "re-opens as a generic Part" % (cls.name, ctv), file=f.file, line=c.lineno)
+                    elif reg is cls or reg in prog.mro(cls) or cls in prog.mro(reg):
+                        ctx.ok("R2.5", key, sample={"class": cls.name, "content_type": ctv, "registry": reg.name})
+                    else:
+                        ctx.violation("R2.5", key, "%s is created with content type %s, which the registry maps to %s" % (
+                            cls.name, ctv, reg.name), file=f.file, line=c.lineno)
     ctx.count("typed_construction_sites", n)
 
 
